@@ -91,7 +91,9 @@ LatticeSites(d) ==
                      THEN { SiteArg("lattice_option", "lat", "too_few_ranges", c, TooFew(d.cells[c].nvecs, d.cells[c].ranges)) }
                      ELSE {})
                \cup { Site("lattice_argument", "cli", v, c, 0) :
-                      v \in {"no_ranges", "four_ranges", "cell_not_int", "bound_not_int", "double_colon", "empty_range"} }
+                      v \in {"no_ranges", "four_ranges", "cell_not_int", "bound_not_int", "double_colon", "empty_range",
+                             (* the option may be repeated: a malformed argument is malformed wherever it stands *)
+                             "bound_not_int_then_good", "double_colon_then_good", "four_ranges_then_good"} }
           ELSE IF d.cells[c].nranges > 0
           THEN { Site("fill_length", "lat", v, c, 0) : v \in {"one_less", "one_more", "one_more_repeat", "one_more_nrepeat"} }
                \cup (IF Len(d.cells[c].lunivs) >= 2       \* a trailing repeat that runs one entry past the declared size
